@@ -1,6 +1,6 @@
 (* Case runner for C19: decodes harness cases, runs M_Config / M_Settings / M_Fs, judges the
    implementation's observables with the S_Config checkers.  No proofs here. *)
-From PV Require Import Base.Term M_Config M_Settings M_Fs S_Config Gen.Gen_ConfigTable.
+From PV Require Import Base.Term M_Config M_Flags M_Settings M_Fs S_Config Gen.Gen_ConfigTable.
 Open Scope string_scope.
 Open Scope Z_scope.
 
@@ -185,6 +185,12 @@ Definition burst_outcome (i : term) : term :=
   let cur := cfg_of (gn i 3) in
   sort_state (of_state cur (run_sops pf js flds cur (init_state pf js (gn i 4)) (map sop_of (gl (gn i 5))))).
 
+Definition flags_of (t : term) : flags := map (fun p => (gs (gn p 0), gs (gn p 1))) (gl t).
+
+(* "e2eseq": pprof <flags> -http: the option state a save stores is what parseFlags made of the flags *)
+Definition e2e_cur (i : term) : res config :=
+  apply_flags (pf_of (gn i 1)) flds (default_cfg flds) (flags_of (gn i 3)) false.
+
 Definition run_C19 (i : term) : term :=
   let op := gs (gn i 0) in
   let pf := pf_of (gn i 1) in
@@ -200,6 +206,13 @@ Definition run_C19 (i : term) : term :=
   else if String.eqb op "conc" then
     let js := js_of (gn i 2) in
     TL (conc_outcomes pf js (cfg_of (gn i 3)) (init_state pf js (gn i 4)) (map sop_of (gl (gn i 5))))
+  else if String.eqb op "e2eseq" then
+    let pf := pf_of (gn i 1) in
+    let js := js_of (gn i 2) in
+    match e2e_cur i with
+    | Err _ => TL [TS "refused"; TZ 1]
+    | Ok cur => TL [of_cfg cur; TL (run_seq pf js cur (init_state pf js (gn i 4)) (gl (gn i 5)))]
+    end
   else if String.eqb op "burst" then burst_outcome i
   else if String.eqb op "fs" then
     run_fs i
@@ -272,6 +285,12 @@ Definition spec_C19 (i o : term) : bool :=
     let js := js_of (gn i 2) in
     let cur := cfg_of (gn i 3) in
     existsb (fun x => term_eqb x o) (conc_outcomes pf js cur (init_state pf js (gn i 4)) (map sop_of (gl (gn i 5))))
+  else if String.eqb op "e2eseq" then
+    if String.eqb (gs (gn o 0)) "refused" then gb (gn o 1)
+    else
+      let js := js_of (gn i 2) in
+      let cur := cfg_of (gn o 0) in     (* the option state the running pprof reports *)
+      spec_seq pf cur (of_state cur (init_state pf js (gn i 4))) (gl (gn i 5)) (gl (gn o 1))
   else if String.eqb op "burst" then
     (* all names distinct: the requests commute, "as if one after another" = this set of entries *)
     negb (nodup_str (burst_names i)) || term_eqb (burst_outcome i) (sort_state o)
